@@ -66,7 +66,9 @@ def verify_one(args):
                 if kf:
                     # a listed finding: the obligation must hold outside the listed failing-input class
                     k = kf[0]
-                    wd, where = ex.eval_spec(ex.top_pre, k['where'], c, ex.top_env, ex.top_pre)
+                    envk = dict(ex.top_env)
+                    envk['result'] = ex.result
+                    wd, where = ex.eval_spec(ex.post_state, k['where'], c, envk, ex.top_pre)
                     import z3
                     r2 = solve.check(ex.assumes[:ob.n_assumes] + [z3.Not(z3.And(wd, where))], ob.guard, ob.cond,
                                      ob.name, ob.info)
@@ -168,7 +170,8 @@ def report(prop, tier, seed, results, extra_res, t0):
             if v != 'sat':
                 undecided.append((r['function'], 'vacuity guard %s = %s' % (k, v)))
         for ob in r['obligations']:
-            n_ob += 1
+            if ob['status'] != 'known-finding':
+                n_ob += 1
             solver_s += ob['seconds']
             backends[ob['backend']] = backends.get(ob['backend'], 0) + 1
             if ob['status'] == 'unsat':
